@@ -372,6 +372,16 @@ func (d *Describer) desc1(v ssa.Value, depth int) string {
 		}
 		return v.Op.String() + r(v.X)
 	case *ssa.BinOp:
+		// the element index of a range loop (pre-index φ starting at −1, plus 1)
+		// reads like the counter of an index loop: it@N
+		if v.Op == token.ADD {
+			if ph, ok := v.X.(*ssa.Phi); ok && isRangePre(ph) && isConstInt(v.Y, 1) {
+				return fmt.Sprintf("it@%d", ph.Block().Index)
+			}
+			if ph, ok := v.Y.(*ssa.Phi); ok && isRangePre(ph) && isConstInt(v.X, 1) {
+				return fmt.Sprintf("it@%d", ph.Block().Index)
+			}
+		}
 		a, b := r(v.X), r(v.Y)
 		switch v.Op {
 		case token.ADD, token.MUL, token.EQL, token.NEQ, token.AND, token.OR, token.XOR:
@@ -422,6 +432,9 @@ func (d *Describer) desc1(v ssa.Value, depth int) string {
 	case *ssa.Call:
 		return d.callDesc(&v.Call, depth)
 	case *ssa.Phi:
+		if isRangePre(v) {
+			return fmt.Sprintf("(-1 + it@%d)", v.Block().Index)
+		}
 		if isInduction(v) {
 			return fmt.Sprintf("it@%d", v.Block().Index)
 		}
@@ -484,6 +497,37 @@ func isInduction(p *ssa.Phi) bool {
 		}
 	}
 	return false
+}
+
+// isRangePre: the pre-index of a range loop — an induction φ entered with −1
+// and advanced by +1 before each iteration (go/ssa's lowering of `for i := range`).
+func isRangePre(p *ssa.Phi) bool {
+	if !isInduction(p) {
+		return false
+	}
+	entries := 0
+	for _, e := range p.Edges {
+		if b, ok := e.(*ssa.BinOp); ok && b.X == ssa.Value(p) {
+			if b.Op != token.ADD || !isConstInt(b.Y, 1) {
+				return false
+			}
+			continue
+		}
+		if !isConstInt(e, -1) {
+			return false
+		}
+		entries++
+	}
+	return entries > 0
+}
+
+func isConstInt(v ssa.Value, want int64) bool {
+	c, ok := v.(*ssa.Const)
+	if !ok || c.Value == nil || c.Value.Kind() != constant.Int {
+		return false
+	}
+	i, exact := constant.Int64Val(c.Value)
+	return exact && i == want
 }
 
 func fp4(s string) string {
